@@ -1,4 +1,3 @@
-AUTH = ["vf_rauth_test.go", "vf_c07_test.go", "vf_c08_test.go"]
 prop("C07", files={"root": AUTH + EV}, shared={"root": J + ["vf_ids_test.go"]},
      assumptions=["R-auth (vf_rauth_test.go) transcribes the authorisation rules of room versions 1-12 with the documented departures D1-D13 of DESIGN.md 5.1",
                   "auth-state events whose own content could not have been accepted (unparseable power levels / join rule / membership / create content) are outside the judged domain (no-panic only)",
